@@ -450,7 +450,7 @@ func runConn(cfg *bfe_tls.Config, cl *ClientSpec, goOffer *tls.ClientSessionStat
 
 	var wg sync.WaitGroup
 	wg.Add(1)
-	var sPanic string
+	var sPanic, sEcho string
 	go func() {
 		defer wg.Done()
 		sPanic = vh.Guard(func() {
@@ -473,26 +473,28 @@ func runConn(cfg *bfe_tls.Config, cl *ClientSpec, goOffer *tls.ClientSessionStat
 			res.master = append([]byte(nil), st.MasterSecret...)
 			buf := make([]byte, len(up))
 			n := 0
+			var rerr error
 			for n < len(buf) {
 				k, err := s.Read(buf[n:])
 				n += k
 				if err != nil {
+					rerr = err
 					break
 				}
 			}
 			if !bytes.Equal(buf[:n], up) {
-				o.Echo = fmt.Sprintf("server received %d bytes, differ from what the client sent", n)
+				sEcho = fmt.Sprintf("server received %d bytes, differ from what the client sent (read error: %v)", n, rerr)
 				sc.Close()
 				return
 			}
 			if _, err := s.Write(down); err != nil {
-				o.Echo = "server write: " + err.Error()
+				sEcho = "server write: " + err.Error()
 			}
 			s.Close()
 		})
 	}()
 
-	var cPanic string
+	var cPanic, cEcho string
 	cPanic = vh.Guard(func() {
 		var rw interface {
 			Read([]byte) (int, error)
@@ -597,29 +599,27 @@ func runConn(cfg *bfe_tls.Config, cl *ClientSpec, goOffer *tls.ClientSessionStat
 			rw = c
 		}
 		if _, err := rw.Write(up); err != nil {
-			o.Echo = "client write: " + err.Error()
+			cEcho = "client write: " + err.Error()
 			cc.Close()
 			return
 		}
 		buf := make([]byte, len(down))
 		n := 0
+		var rerr error
 		for n < len(buf) {
 			k, err := rw.Read(buf[n:])
 			n += k
 			if err != nil {
+				rerr = err
 				break
 			}
 		}
 		if !bytes.Equal(buf[:n], down) {
-			if o.Echo == "" {
-				o.Echo = fmt.Sprintf("client received %d bytes, differ from what the server sent", n)
-			}
+			cEcho = fmt.Sprintf("client received %d bytes, differ from what the server sent (read error: %v)", n, rerr)
 			cc.Close()
 			return
 		}
-		if o.Echo == "" {
-			o.Echo = "ok"
-		}
+		cEcho = "ok"
 	})
 	cc.Close()
 	done := make(chan struct{})
@@ -628,6 +628,13 @@ func runConn(cfg *bfe_tls.Config, cl *ClientSpec, goOffer *tls.ClientSessionStat
 	case <-done:
 	case <-time.After(connTimeout + 2*time.Second):
 		o.Hang = true
+	}
+	// echo verdict once both ends are done: the server's view first (it fails first when data is damaged)
+	switch {
+	case sEcho != "":
+		o.Echo = sEcho + "; client: " + cEcho
+	case cEcho != "":
+		o.Echo = cEcho
 	}
 	if cPanic != "" || sPanic != "" {
 		o.Panic = "client: " + cPanic + " server: " + sPanic
